@@ -21,6 +21,7 @@ type Case struct {
 	Level string       `json:"level"`
 	H     hgen.History `json:"h"`
 	Batch []int        `json:"batch,omitempty"`
+	Every int          `json:"every,omitempty"` // mass graphs: read the whole RIB back only every n-th step
 }
 
 func setup() {
@@ -38,7 +39,7 @@ func runCase(c Case) *ev.Verdict {
 	if c.Level == "L2" {
 		v, tr = l2.RunHistory(c.H, l2.Opts{P: "C02", Trusted: true, Batch: c.Batch})
 	} else {
-		v, tr = l1.Run(c.H, l1.Opts{P: "C02", Trusted: true, Closure: true})
+		v, tr = l1.Run(c.H, l1.Opts{P: "C02", Trusted: true, Closure: true, ObserveEvery: c.Every})
 	}
 	if tr.Cascade2 > 0 {
 		v.Class("cascade>=2")
@@ -176,12 +177,80 @@ func TestCampaign(t *testing.T) {
 	})
 	t.Run("random-graphs", func(t *testing.T) {
 		rapid.Check(t, func(rt *rapid.T) {
-			c := drawGraph(rt)
+			var c Case
+			mass := rapid.IntRange(0, 24).Draw(rt, "mass?") == 7
+			if mass {
+				c = drawMassGraph(rt)
+			} else {
+				c = drawGraph(rt)
+			}
 			v := runCase(c)
+			if mass {
+				v.Class("mass-graph")
+			}
 			col.Check(rt, ev.JSON(c), v)
 		})
 	})
 	col.MinimizeAll(minimize)
+}
+
+// MassSizes are the numbers of held operations of the mass graphs: around
+// powers of two and a few in between (limits on cascade depth, batch sizes or
+// retry counts sit at such values).
+func MassSizes() []int {
+	s := []int{5, 12, 33, 63, 64, 65, 66, 100, 127, 128, 129, 255, 256, 257}
+	if ev.Thorough() {
+		s = append(s, 511, 512, 513, 1000, 1023, 1024, 1025, 2049)
+	}
+	return s
+}
+
+// drawMassGraph: n top-level entries (over one or two groups, in several
+// network instances) and their groups are all held for missing next-hops and
+// are released by single operations: one call must acknowledge them all.
+func drawMassGraph(rt *rapid.T) Case {
+	sizes := MassSizes()
+	n := sizes[rapid.IntRange(0, len(sizes)-1).Draw(rt, "size")]
+	c := Case{Level: "L1", H: hgen.History{FwdRefs: rapid.IntRange(0, 5).Draw(rt, "fwd") != 0}, Every: 64}
+	var ops []gen.Op
+	twoLevel := rapid.Bool().Draw(rt, "two-level")
+	ops = append(ops, gen.Op{NI: "DEFAULT", Kind: gen.NHG, Act: gen.ADD, Key: "1", Hops: []gen.Hop{{Index: 1}}})
+	ops = append(ops, gen.Op{NI: "DEFAULT", Kind: gen.NHG, Act: gen.ADD, Key: "2", Hops: []gen.Hop{{Index: 1}, {Index: 2}}})
+	for i := 0; i < n; i++ {
+		ni := hgen.NIs[rapid.IntRange(0, 2).Draw(rt, "ni")]
+		o := gen.Op{NI: ni, Act: gen.ADD, Group: uint64(1 + i%2), GroupNI: "DEFAULT"}
+		switch i % 5 {
+		case 3:
+			o.Kind, o.Key = gen.V6, fmt.Sprintf("2001:db8:%x::/48", i+1)
+		case 4:
+			o.Kind, o.Key = gen.MPLS, fmt.Sprint(16+i)
+		default:
+			o.Kind, o.Key = gen.V4, fmt.Sprintf("10.%d.%d.0/24", i/250, i%250)
+		}
+		ops = append(ops, o)
+	}
+	if !twoLevel {
+		// the groups are installed first: only the top-level entries wait, for nothing... so
+		// hold them on the groups instead: the groups arrive last
+		ops = append(ops[2:], ops[0], ops[1])
+		ops = append([]gen.Op{{NI: "DEFAULT", Kind: gen.NH, Act: gen.ADD, Key: "1", IP: "192.0.2.1"}, {NI: "DEFAULT", Kind: gen.NH, Act: gen.ADD, Key: "2", IP: "192.0.2.2"}}, ops...)
+	} else {
+		if rapid.Bool().Draw(rt, "shuffle") {
+			ops = rapid.Permutation(ops).Draw(rt, "order")
+		}
+		// release: next-hop 2 changes nothing yet for group 1, next-hop 1 releases group 1 and (with 2) group 2
+		ops = append(ops, gen.Op{NI: "DEFAULT", Kind: gen.NH, Act: gen.ADD, Key: "2", IP: "192.0.2.2"}, gen.Op{NI: "DEFAULT", Kind: gen.NH, Act: gen.ADD, Key: "1", IP: "192.0.2.1"})
+	}
+	for i := range ops {
+		o := ops[i]
+		o.ID = uint64(i + 1)
+		c.H.Steps = append(c.H.Steps, hgen.Step{Op: &o})
+	}
+	if rapid.IntRange(0, 3).Draw(rt, "l2?") == 0 {
+		c.Level = "L2"
+		c.Batch = []int{rapid.IntRange(1, 100).Draw(rt, "batch")}
+	}
+	return c
 }
 
 // drawGraph draws a dependency graph and an arrival order.
@@ -308,6 +377,7 @@ func minimize(sig string, cs []byte) []byte {
 		}
 		return false
 	}
+	fails = ev.Bounded(fails)
 	if !fails(c.H) {
 		return nil
 	}
